@@ -533,6 +533,13 @@ def run(ctx):
         ctx.ob("R-C17.6", hdf, "recognises-lock-keyspaces-and-journals", ok,
                "the lock file, the keyspaces folder and *.jnl files count as database files" if ok else "not recognised as database files: %s" % ", ".join(k for k, v in need.items() if not v))
 
+    # ---- cross-cutting disciplines (rules/discipline.py)
+    from .. import discipline as D
+    # open/lock/marker errors surface
+    D.error_discipline(ctx, "R-C17.8", scope=lambda f: f.startswith(("db::Database::create", "db::Database::recover", "db::Database::check_version", "db::Database::holds", "db::Database::is_interrupted", "version::", "locked_file::", "<locked_file::", "<db::DatabaseInner")))
+    # every directory entry is looked at
+    D.loops_visit_all(ctx, "R-C17.9", only=("db::Database::holds_database_files",))
+
     # ---- borrowed obligations (mechanisms owned by other properties that this property's verdict also rests on)
     # after the last handle is dropped the journal is synced — sealed journals at seal time, the active one at drop
     ctx.borrow("C09", ["R-C09.4", "R-C09.6"], "R-C17.7")
